@@ -66,6 +66,9 @@ var c10alphabet = []c10op{
 	{"execve-not-found", rpcmodel.Op{Kind: rpcmodel.CExecve, LookFail: true}, nil},
 	{"execve-empty-args", rpcmodel.Op{Kind: rpcmodel.CExecve, LookFail: true}, nil},
 	{"execve-fails-before-sync", rpcmodel.Op{Kind: rpcmodel.CExecve, StartFail: true}, nil},
+	// the clone itself is refused (a descriptor that is no cgroup directory given as the cgroup to be born in): for the
+	// protocol the same as any other failure before the sync, for the init a different path through the launcher
+	{"execve-clone-fails", rpcmodel.Op{Kind: rpcmodel.CExecve, StartFail: true}, nil},
 	{"execve-callback-fails", rpcmodel.Op{Kind: rpcmodel.CExecve, SyncFail: true}, nil},
 	{"execve-exec-fails-after-sync", rpcmodel.Op{Kind: rpcmodel.CExecve, ExecFail: true}, nil},
 	{"execve-runs", rpcmodel.Op{Kind: rpcmodel.CExecve, SelfExit: true, Cancel: true}, []string{"exit-then-result", "cancel-then-kill", "exit-held-cancel-first", "exited-unreported-kill-first"}},
@@ -240,6 +243,9 @@ func (e *c10env) perform(k int, op c10op, sched string) (class int, said string,
 	case op.name == "execve-empty-args":
 		p.Args = nil
 		wantErr = " "
+	case op.name == "execve-clone-fails":
+		p.CgroupFD = devnull()
+		wantErr = "clone"
 	case op.model.StartFail && !op.model.SyncAfter:
 		p.RLimits = []rlimit.RLimit{{Res: unix.RLIMIT_NOFILE, Rlim: syscall.Rlimit{Cur: 100, Max: 10}}}
 		wantErr = "setrlimt"
